@@ -23,4 +23,38 @@ func init() {
 		},
 		Assumptions: append([]string{"A10: lzcnt_amd64.s translated by a 9-mnemonic Plan-9 subset translator; BSRQ's destination on zero input is an arbitrary value"}, stdAssumptions...),
 	})
+
+	orcaStep := func(only []string, extra map[string]int64, bounds string) Job {
+		p := map[string]int64{"nk": 2, "len0": 2, "dlen": 1, "getkeys": 2}
+		for k, v := range extra {
+			p[k] = v
+		}
+		return Job{Pkg: "./zz_verif/orcah", Func: "ZZOrcaStep", Params: p, Only: only, Reach: []string{"step-done"}, Bounds: bounds}
+	}
+	stepBounds := "one command from an arbitrary valid two-tier state; 9 orchestrator configs (L1Only, L1L2, L1L2Batch x bare/Locked single-reader/Locked multi-reader); 9 command kinds; 2 keys; stored values 2 bytes, written values 1 byte, all byte/flag/TTL/opaque/quiet values symbolic (full 32 bit); gets of 1-2 keys incl. duplicates; clock frozen during the command"
+	orcaAssumptions := append([]string{
+		"A1: clock frozen during one command (the model handlers share one symbolic instant)",
+		"model handlers (harness/zz_verif/model) are memcached for the subset used: TTL rule 0/<=30d relative/absolute, expired = absent; GetE reports remaining seconds",
+		"initial state: any L1 subset of L2 with equal bytes/flags and L1 deadline <= L2 deadline (representation invariant, re-established by every command = induction over histories)",
+		"responder = recording responder (calls, not bytes); intermediate GetEnd(noopEnd=false) calls of the locking wrapper are not compared here (wire level: C08)",
+	}, stdAssumptions...)
+	reg(Check{ID: "C01", Level: "model_checking", Assumptions: orcaAssumptions,
+		Quick: []Job{orcaStep([]string{"c01-"}, nil, stepBounds)}})
+	reg(Check{ID: "C02", Level: "model_checking", Assumptions: orcaAssumptions,
+		Quick: []Job{orcaStep([]string{"c02-"}, nil, stepBounds)}})
+	reg(Check{ID: "C09", Level: "model_checking", Assumptions: orcaAssumptions,
+		Quick: []Job{orcaStep([]string{"c09-"}, nil, stepBounds)}})
+
+	reg(Check{ID: "C12", Level: "model_checking", Assumptions: append([]string{
+		"lock discipline observed through instrumented lockers injected into the lock-set slot by an overlay file in package orcas (no change to the repository)",
+		"faults: the n-th call on the L1 or L2 model handler returns an I/O error, returns ERROR Busy, or panics; one fault per command",
+		"sequential part only: concurrent multi-key gets in opposite orders are covered by C03's schedule exploration",
+	}, orcaAssumptions...),
+		Quick: []Job{{Pkg: "./zz_verif/orcah", Func: "ZZLockFault", Params: map[string]int64{"concurrency": 1, "getkeys": 2, "failpositions": 3},
+			Reach: []string{"loop-returned", "second-parse", "next-commands-done"},
+			Bounds: "Locked(L1Only|L1L2|L1L2Batch), single/multi reader, 2 stripes; 9 command kinds, gets of 1-2 keys; fault at handler call 0 or 1 of L1 or L2 (or none), kinds I/O error / app error / panic"}},
+		Thorough: []Job{{Pkg: "./zz_verif/orcah", Func: "ZZLockFault", Params: map[string]int64{"getkeys": 3, "failpositions": 5}, Name: "ZZLockFault-deep",
+			Reach: []string{"loop-returned", "second-parse", "next-commands-done"},
+			Bounds: "as quick, plus 1 and 2 stripes, gets of 1-3 keys, fault at handler call 0..3"}},
+	})
 }
